@@ -4,6 +4,7 @@ package rig
 
 import (
 	"fmt"
+	"strings"
 	"sync"
 	"sync/atomic"
 
@@ -73,6 +74,8 @@ type EP struct {
 	Priority int
 	Preserve bool
 	BasePath string
+	// HostName: the URL names the backend by host name (http://localhost:port) instead of by address
+	HostName bool
 }
 
 // Setup installs a fresh endpoint set (fresh names, hence fresh per-name breakers and
@@ -96,6 +99,9 @@ func (r *Rig) Setup(eps []EP) (names, urls []string, err error) {
 		} else {
 			url = fmt.Sprintf("http://127.0.0.1:%d", hx.DeadPort(dead))
 			dead++
+		}
+		if e.HostName {
+			url = strings.Replace(url, "://127.0.0.1:", "://localhost:", 1)
 		}
 		url += e.BasePath
 		name := fmt.Sprintf("k%d-%c", n, 'A'+i)
